@@ -344,7 +344,7 @@ CLASH = ['url', 'app_res', 'route_res', 'other-mw', 'none']
 def bundled_items():
     out = []
     for b in BUNDLED:
-        for shape in (SHAPES if b in ('getparam', 'postdata') else ['-']):
+        for shape in (SHAPES if b in ('getparam', 'postdata') else (['-', 'named', 'positional'] if b == 'cookie' else ['-'])):
             for clash in CLASH:
                 for level in ('app', 'route'):
                     out.append(('bundled-%s-%s:%s' % (b, shape, clash), {'mw': b, 'shape': shape, 'clash': clash, 'level': level}, 'BM'))
@@ -386,7 +386,12 @@ def check_bundled(acc, label, spec):
         elif spec['mw'] == 'postdata':
             mw = PostDataMiddleware(params())
         elif spec['mw'] == 'cookie':
-            mw = SignedCookieMiddleware(secret_key=b'k', arg_name=name)
+            if shape == 'named':
+                mw = SignedCookieMiddleware(secret_key=b'k', arg_name=name, cookie_name='sid')
+            elif shape == 'positional':
+                mw = SignedCookieMiddleware(name, 'sid', b'k')
+            else:
+                mw = SignedCookieMiddleware(secret_key=b'k', arg_name=name)
         else:
             mw = ScriptRootMiddleware(name)
     except Exception as e:
